@@ -134,6 +134,14 @@ def gen(c):
                 continue
             offer("rs:%s:%s" % (rn, sn), r, s, seq(dint(r), dint(s)))
     offer("rs:r_plus_s_is_n", r0, n - r0, seq(dint(r0), dint(n - r0)))
+    # out-of-range scalars that would satisfy the equation if they were reduced mod n: s = n (== 0) with the digest crafted so that
+    # r = e + x([r]P) holds; s = 0 likewise; these are accepted exactly when a range check is missing or off by one
+    for rr in (r0, 1, n - 1, rng.randrange(1, n)):
+        Q = mul(rr, P)
+        e_forged = (rr - Q[0]) % n
+        for sv, sn in ((n, "n"), (0, "zero")):
+            dgf = i2b(e_forged)
+            offer("rs:forged_s_%s:%x" % (sn, rr % 65536), rr, sv, seq(dint(rr), dint(sv)), dg=dgf, ifaces=("dgst", "do"))
     offer("rs:other_r", (r0 + 1) % n or 1, s0, seq(dint((r0 + 1) % n or 1), dint(s0)))
     # context mutations
     offer("ctx:other_key", r0, s0, seq(dint(r0), dint(s0)), pubkey=P2)
